@@ -241,10 +241,10 @@ def gen_spec(rng, N, entry=None, source=None, in_memory=None, allow_int=True, ha
             o["return_all_logprobs"] = True
         if not in_memory:
             o["n_batches"] = nb
-            if source != "int" and rng.random() < 0.35:
-                o["n_prior_samples"] = int(rng.integers(max(1, N // 2), N + 1))
-            if rng.random() < 0.35:
-                o["randomize_prior_order"] = True
+        if source != "int" and rng.random() < 0.35:
+            o["n_prior_samples"] = int(rng.integers(max(1, N // 2), N + 1))
+        if rng.random() < 0.35:
+            o["randomize_prior_order"] = True
     elif entry == "iterative":
         o["n_requested_samples"] = int(rng.integers(1, 6))
         o["init_batch_size"] = int(rng.integers(max(1, N // 8), max(2, N // 2)))
@@ -254,10 +254,10 @@ def gen_spec(rng, N, entry=None, source=None, in_memory=None, allow_int=True, ha
             o["return_logprobs"] = True
         if not in_memory:
             o["n_batches"] = nb
-            if rng.random() < 0.3:
-                o["max_prior_samples"] = int(rng.integers(max(o["init_batch_size"], N // 2), N + 1))
-            if rng.random() < 0.3:
-                o["randomize_prior_order"] = True
+        if rng.random() < 0.3:
+            o["max_prior_samples"] = int(rng.integers(max(o["init_batch_size"], N // 2), N + 1))
+        if rng.random() < 0.3:
+            o["randomize_prior_order"] = True
     return spec
 
 
